@@ -27,7 +27,7 @@ MANIFEST = {
 
 ULIMIT_KB = 2000000
 # further theorem files of C16 (each one re-checked and audited like C16Theorems.v)
-EXTRA_THEOREM_FILES = ["C16TheoremsParse.v"]
+EXTRA_THEOREM_FILES = ["C16TheoremsParse.v", "C16TheoremsAux.v"]
 
 
 def build(ctx):
